@@ -150,6 +150,20 @@ func c06Run(o *vOut, r *vRand, m *c06Msg, v6 bool, loopOk bool) {
 					if a.Value > 2 {
 						o.fail("installable-with-bad-origin", map[string]any{"body": hx, "faults": m.faultNames()})
 					}
+				case *PathAttributeAsPath:
+					// AS_PATH must fit the peer type (RFC 5065): no confederation segment, at ANY position,
+					// from a plain eBGP peer; CONFED_SEQ first from a confederation peer
+					if ebgp && !confed {
+						for _, sg := range a.Value {
+							if t := sg.GetType(); t == BGP_ASPATH_ATTR_TYPE_CONFED_SEQ || t == BGP_ASPATH_ATTR_TYPE_CONFED_SET {
+								o.fail("installable-with-confed-segment-from-ebgp-peer", map[string]any{"body": hx, "faults": m.faultNames(), "use2": m.use2})
+								break
+							}
+						}
+					}
+					if confed && (len(a.Value) == 0 || a.Value[0].GetType() != BGP_ASPATH_ATTR_TYPE_CONFED_SEQ) {
+						o.fail("installable-without-leading-confed-seq-from-confed-peer", map[string]any{"body": hx, "faults": m.faultNames(), "use2": m.use2})
+					}
 				case *PathAttributeNextHop:
 					b := a.Value.AsSlice()
 					if len(b) == 0 || b[0] == 0 || (len(b) == 4 && (b[0] >= 224 || (!loopOk && b[0] == 127))) {
@@ -209,6 +223,23 @@ func TestVerifC06(t *testing.T) {
 		cm.run(o, r)
 	}
 
+	// plain eBGP peer, confederation segment in the middle / at the end of AS_PATH (seed C06-A)
+	for _, ap := range [][]byte{
+		{2, 1, 0, 0, 0xfd, 0xe9, 3, 1, 0, 0, 0xfe, 0x4c},
+		{2, 1, 0, 0, 0xfd, 0xe9, 1, 1, 0, 0, 0xfd, 0xea, 4, 1, 0, 0, 0xfe, 0x4c},
+		{2, 1, 0, 0, 0xfd, 0xe9, 3, 1, 0, 0, 0xfe, 0x4c, 2, 1, 0, 0, 0xfd, 0xeb},
+	} {
+		m := &c06Msg{peer: 0, nlri: [][]byte{{24, 10, 99, 5}}}
+		m.attrs = []c06Attr{
+			{typ: 1, flags: 0x40, val: []byte{0}, decl: -1},
+			{typ: 2, flags: 0x40, val: ap, decl: -1, tag: "segment-kind"},
+			{typ: 3, flags: 0x40, val: []byte{10, 0, 0, 1}, decl: -1},
+		}
+		m.faults = []c06Fault{{"aspath-confed-last", c06Withdraw, 2}}
+		c06Run(o, r, m, true, false)
+		o.stat("corpus", 1)
+	}
+
 	n := 9000
 	if o.thorough {
 		n = 70000
@@ -219,6 +250,9 @@ func TestVerifC06(t *testing.T) {
 		m := c06Gen(r, peer, nf)
 		o.stat(fmt.Sprintf("faults_%d", nf), 1)
 		o.stat("peer_"+[]string{"ebgp", "ibgp", "confed"}[peer], 1)
+		if m.shape != "" {
+			o.stat("aspath_segments_"+m.shape+"_"+[]string{"ebgp", "ibgp", "confed"}[peer], 1)
+		}
 		for _, f := range m.faults {
 			nm := f.name
 			if k := strings.IndexByte(nm, ':'); k >= 0 {
